@@ -114,6 +114,9 @@ void harness(void)
     if (in_rb_null) {
       extern unsigned vf_rand_calls; extern size_t vf_rand_len;
       VF_ASSERT(vf_rand_calls == 1 && vf_rand_len >= 1 && vf_rand_len <= 255, "C12: rbytes == NULL draws the bytes from the OS source exactly once");
+#ifdef EXPECT_NRB
+      VF_ASSERT(vf_rand_len == EXPECT_NRB, "C12: rbytes == NULL draws the method's full number of random bytes, whatever nrbytes says");
+#endif
     }
     VF_ASSERT(n < CRYPT_GENSALT_OUTPUT_SIZE, "C10: setting shorter than CRYPT_GENSALT_OUTPUT_SIZE");
 #ifndef PREFIX_NULL
